@@ -151,8 +151,12 @@ Sim(mu, sig) ==
                           ELSE (IF TruthyStr(mu.dbcol)
                                 THEN Put(old.attrs, "db_column", mu.dbcol)
                                 ELSE Drop(old.attrs, "db_column"))
+                 ren(t) == [i \in 1..Len(t) |-> IF t[i] = mu.of THEN mu.nf ELSE t[i]]
              IN Ok([sig EXCEPT ![mu.m].fields =
-                       Put(Drop(@, mu.of), mu.nf, [old EXCEPT !.attrs = attrs])])
+                       Put(Drop(@, mu.of), mu.nf, [old EXCEPT !.attrs = attrs]),
+                    \* unique_together / Meta.indexes follow the renamed field
+                    ![mu.m].ut = [i \in 1..Len(@) |-> ren(@[i])],
+                    ![mu.m].idx = [i \in 1..Len(@) |-> [@[i] EXCEPT !.fields = ren(@)]]])
     [] mu.k = "Meta" ->
         IF mu.m \notin DOMAIN sig THEN Fail(sig)
         ELSE IF mu.prop = "unique_together"
